@@ -2,7 +2,7 @@
 #include "w2c2_base.h"
 #include "wasm_int.h"
 #include "trapstub.h"
-#include "/verif/.work_wt/C18-27936/memrec/memrec.h"
+#include "/verif/.work_wt/C18-29002/memrec/memrec.h"
 #include "c18size.c"
 #include "wasm_int.h"
 #include "libm_markers.h"
